@@ -87,19 +87,30 @@ Idx(s) == IF FifoOnly THEN {1} \cap DOMAIN s ELSE DOMAIN s
 B2N(b) == IF b THEN 1 ELSE 0
 
 \* -------------------------------------------------------------------- init
+InitVal(sh, t) ==
+  [shape |-> sh, tr |-> t, nextK |-> 0,
+   drv |-> [undisp |-> <<>>, free |-> 1..Len(sh), unfinished |-> 0],
+   gpu |-> [d \in 1..Len(sh) |-> [undisp |-> <<>>, free |-> 1..sh[d].sm, unfinished |-> 0, finished |-> 0]],
+   sm |-> [x \in UNION {{<<d, s>> : s \in 1..sh[d].sm} : d \in 1..Len(sh)} |->
+             [undisp |-> <<>>, free |-> 1..sh[x[1]].sub, unfinished |-> 0, finished |-> 0, warps |-> 0]],
+   sub |-> [x \in UNION {{<<d, s, c>> : s \in 1..sh[d].sm, c \in 1..sh[d].sub} : d \in 1..Len(sh)} |->
+             [left |-> 0, finished |-> 0, insts |-> 0]],
+   out |-> [p \in PortsOf(sh) |-> <<>>], inb |-> [p \in PortsOf(sh) |-> <<>>],
+   gotK |-> [k \in 1..Len(t) |-> 0],
+   gotB |-> [x \in UNION {{<<k, b>> : b \in 1..Len(t[k])} : k \in 1..Len(t)} |-> 0],
+   gotW |-> [x \in UNION {UNION {{<<k, b, w>> : w \in 1..Len(t[k][b])} : b \in 1..Len(t[k])} : k \in 1..Len(t)} |-> 0]]
+
 InitWith(sh, t) ==
-  /\ shape = sh /\ tr = t /\ nextK = 0
-  /\ drv = [undisp |-> <<>>, free |-> 1..Len(sh), unfinished |-> 0]
-  /\ gpu = [d \in 1..Len(sh) |-> [undisp |-> <<>>, free |-> 1..sh[d].sm, unfinished |-> 0, finished |-> 0]]
-  /\ sm = [x \in UNION {{<<d, s>> : s \in 1..sh[d].sm} : d \in 1..Len(sh)} |->
-             [undisp |-> <<>>, free |-> 1..sh[x[1]].sub, unfinished |-> 0, finished |-> 0, warps |-> 0]]
-  /\ sub = [x \in UNION {{<<d, s, c>> : s \in 1..sh[d].sm, c \in 1..sh[d].sub} : d \in 1..Len(sh)} |->
-             [left |-> 0, finished |-> 0, insts |-> 0]]
-  /\ out = [p \in PortsOf(sh) |-> <<>>] /\ inb = [p \in PortsOf(sh) |-> <<>>]
-  /\ gotK = [k \in 1..Len(t) |-> 0]
-  /\ gotB = [x \in UNION {{<<k, b>> : b \in 1..Len(t[k])} : k \in 1..Len(t)} |-> 0]
-  /\ gotW = [x \in UNION {UNION {{<<k, b, w>> : w \in 1..Len(t[k][b])} : b \in 1..Len(t[k])} : k \in 1..Len(t)} |-> 0]
+  LET v == InitVal(sh, t) IN
+  /\ shape = v.shape /\ tr = v.tr /\ nextK = v.nextK /\ drv = v.drv /\ gpu = v.gpu /\ sm = v.sm /\ sub = v.sub
+  /\ out = v.out /\ inb = v.inb /\ gotK = v.gotK /\ gotB = v.gotB /\ gotW = v.gotW
   /\ executed = 0 /\ reportedK = 0 /\ err = {}
+
+\* start over with another platform and trace (concatenated traces)
+ResetTo(v) ==
+  /\ shape' = v.shape /\ tr' = v.tr /\ nextK' = v.nextK /\ drv' = v.drv /\ gpu' = v.gpu /\ sm' = v.sm /\ sub' = v.sub
+  /\ out' = v.out /\ inb' = v.inb /\ gotK' = v.gotK /\ gotB' = v.gotB /\ gotW' = v.gotW
+  /\ executed' = 0 /\ reportedK' = 0 /\ err' = {}
 
 Put(f, p, m) == [f EXCEPT ![p] = Append(@, m)]
 Pop(f, p) == [f EXCEPT ![p] = Tail(@)]
@@ -113,6 +124,19 @@ Submit(k) ==
   /\ nextK' = k
   /\ drv' = [drv EXCEPT !.undisp = Append(@, k), !.unfinished = @ + 1]
   /\ UNCHANGED <<shape, tr, gpu, sm, sub, out, inb, gotK, gotB, gotW, executed, reportedK, err>>
+
+\* Driver.RunKernel with a kernel that extends the trace (the trace is built as it is submitted)
+SubmitNew(kern) ==
+  /\ nextK = Len(tr)
+  /\ LET k == nextK + 1
+         nb == {<<k, b>> : b \in 1..Len(kern)}
+         nw == UNION {{<<k, b, w>> : w \in 1..Len(kern[b])} : b \in 1..Len(kern)} IN
+       /\ tr' = Append(tr, kern) /\ nextK' = k
+       /\ drv' = [drv EXCEPT !.undisp = Append(@, k), !.unfinished = @ + 1]
+       /\ gotK' = [i \in 1..k |-> IF i < k THEN gotK[i] ELSE 0]
+       /\ gotB' = [x \in DOMAIN gotB \cup nb |-> IF x \in DOMAIN gotB THEN gotB[x] ELSE 0]
+       /\ gotW' = [x \in DOMAIN gotW \cup nw |-> IF x \in DOMAIN gotW THEN gotW[x] ELSE 0]
+  /\ UNCHANGED <<shape, gpu, sm, sub, out, inb, executed, reportedK, err>>
 
 \* -------------------------------------------------------------- connection
 \* directconnection.forwardMany: head of an outgoing buffer -> incoming buffer of its destination
@@ -260,7 +284,8 @@ SubReport(d, s, c) ==
   /\ UNCHANGED <<shape, tr, nextK, drv, gpu, sm, inb, gotK, gotB, gotW, executed, reportedK, err>>
 
 \* -------------------------------------------------------------------- next
-SimNext ==
+\* steps that exchange a message (visible at the ports) ...
+ObsNext ==
   \/ \E p \in Ports : Xfer(p)
   \/ \E i \in Idx(drv.undisp), d \in Devs : DrvDispatch(i, d)
   \/ DrvRecvKF
@@ -270,7 +295,10 @@ SimNext ==
   \/ \E x \in SMIds :
        \/ SmRecvBlock(x[1], x[2]) \/ SmRecvWF(x[1], x[2]) \/ SmReport(x[1], x[2])
        \/ \E i \in Idx(sm[x].undisp), c \in SubsOf(x[1]) : SmDispatch(x[1], x[2], i, c)
-  \/ \E x \in SubIds : SubRecvWarp(x[1], x[2], x[3]) \/ SubRun(x[1], x[2], x[3]) \/ SubReport(x[1], x[2], x[3])
+  \/ \E x \in SubIds : SubRecvWarp(x[1], x[2], x[3]) \/ SubReport(x[1], x[2], x[3])
+\* ... and instruction execution inside a sub-core
+RunNext == \E x \in SubIds : SubRun(x[1], x[2], x[3])
+SimNext == ObsNext \/ RunNext
 
 Next == Submit(nextK + 1) \/ SimNext
 
